@@ -148,6 +148,8 @@ SEEDS = ["4x + 2x", "2x + 3y + x", "(x + 1) * 2", "2(x + 3) + 4x", "x * x^2 * 2"
          "6 / -z", "4 - 3x", "7 - -y", "x - (2 + y)", "2x^2 + 3x^2", "0.5x + 0.5x", "x / 2 + x / 2", "-(3 + 2)", "-x + -2x", "3 * (2x * y)",
          "(2x * 3) * y^2", "x + (y + x)", "(x + y) + x", "2^x * 2^3", "(x + 1)(x - 1)", "12 + 6", "12x + 6", "x^0 + x", "1 - 3^2", "2 * -3 - -x",
          "2x + 3 = 7", "3x = 6", "x + 2 + 7 = 3", "7 + (x + 2) = 3", "3 = x + 2 + 7", "2(x + 1) = 8", "4 = 2x - 2", "x = y + 2x", "3x + 7 = 2 + 4x", "0x = 0",
+         "0.000002 * 0.0000003 * x + 0.5", "x * (0.0000004 * 0.0000002)", "(0.000002 / 3000000) * x + y", "1000000 + 0.0005 + x", "4000000.002 * 2 * x", "0.1 * 0.7 * y + 0.3",
+         "3x + 4X + 2y", "X * x * 2", "2X + 3X + x", "4x * 2X^2 + y", "0.5x + 0.5y + 1", "0.5x^2 + 0.5x + y", "-6 + 4 + x", "12 + -8 + 2x",
          "(y + 4x) + 3x", "4x + 2 * 3x", "(y * 2x) * 3x", "5 + ((3 + x) + y)", "3x = 6 + 9y", "2 * ((x + 1) + 5) = 20", "x + -2y^2 = 3", "7 = 2 + 4x + y",
          "x - 2 = 3", "9 - 2x = 3", "-x = 4 + x", "x / 2 = 4", "x^2 = 4 + x^2", "y + (x + 2) = 7", "sgn(x) + 2 = 3", "5 = 3 + 2", "x + x = 2x", "1/2 x = 3"]
 
